@@ -1374,7 +1374,7 @@ func msgCols(zone string, nAns int, keys []*dns.DNSKEY, sigs []*dns.RRSIG, all [
 
 // vfy msg z=<zonepres-hex> k=<k;k> s=<s;s> rr=<wires> a=<records in the answer section> o= c= sw= p= hx=
 func execVerifyMsg(f []string) vlib.Res {
-	if len(f) != 13 {
+	if len(f) != 14 {
 		return vlib.Res{Impl: "bad-op"}
 	}
 	zone := unStr(strings.TrimPrefix(f[2], "z="))
@@ -1506,7 +1506,23 @@ func execVerifyMsg(f []string) vlib.Res {
 	if slow {
 		or = "FAIL sig=vfy/VerifyRRSIG/super-linear"
 	}
-	return vlib.Res{Impl: "ok=" + vlib.B(got), Oracle: or, Tags: joinTags("nt", tag, tt, "err:"+errEnum(err), fmt.Sprintf("sets%d", min(len(need), 3)))}
+	// the same message under the governor named on the line: result and number of operations begun
+	gp := strings.Split(strings.TrimPrefix(f[13], "g="), ",")
+	gov := &fakeWork{maxCand: uint32(vlib.Atoi(gp[0])), maxSet: uint32(vlib.Atoi(gp[1])), budget: vlib.Atoi(gp[2])}
+	wres := "fail"
+	if o := guarded("vfy/VerifyRRSIGWithWork", func() {
+		wok, werr := dnssec.VerifyRRSIGWithWork(zone, keyMap, msg, gov)
+		switch {
+		case dnssec.IsWorkError(werr):
+			wres = "work"
+		case wok && werr == nil:
+			wres = "ok"
+		}
+	}); o != "" {
+		return vlib.Res{Impl: "panic", Oracle: o, Tags: "nt,panic"}
+	}
+	return vlib.Res{Impl: fmt.Sprintf("ok=%s w=%s:%d", vlib.B(got), wres, gov.begins), Oracle: or,
+		Tags: joinTags("nt", tag, tt, "err:"+errEnum(err), fmt.Sprintf("sets%d", min(len(need), 3)), "gov:"+wres)}
 }
 
 // ---------------------------------------------------------------- facts
